@@ -296,6 +296,22 @@ def diff_term(rng, k, i, j, shapes, allow_sym=True):
         y = ("sym", fresh("y"), ("+", x, K(2)))
         z = ("sym", fresh("z"), y)
         return ("*", K(k), ("-", ("-", z, b), K(2))), shape
+    if shape in ("a*ks-b*ks", "ks*a-ks*b", "ks*(a-b)"):
+        # the factor is a symbol, possibly a chain of symbols (k = j / j = 2), defined anywhere
+        ks = ("sym", fresh("j"), K(k))
+        if rng.random() < 0.5:
+            ks = ("sym", fresh("k"), ks)
+        if shape == "a*ks-b*ks":
+            return ("-", ("*", a, ks), ("*", b, ks)), shape
+        if shape == "ks*a-ks*b":
+            return ("-", ("*", ks, a), ("*", ks, b)), shape
+        return ("*", ks, d), shape
+    if shape == "chain-d":
+        # a chain of symbols holding a difference: d1 = a - b / d2 = d1 + 3 / d3 = d2
+        d1 = ("sym", fresh("d"), d)
+        d2 = ("sym", fresh("d"), ("+", d1, K(3)))
+        d3 = ("sym", fresh("d"), d2)
+        return ("*", K(k), ("-", d3, K(3))), shape
     if shape == "aw":
         op = rng.choice(list(AWOPS))
         c = rng.choice([1, 2, 3, 4, 7, -1, -2]) if op != "_" else rng.choice([0, 1, 2, -1, -2])
@@ -316,7 +332,7 @@ def diff_term(rng, k, i, j, shapes, allow_sym=True):
 
 
 DIRECT_SHAPES = ["k*(a-b)", "(a-b)*k", "k*a-k*b", "a*k-b*k", "-(b-a)*k", "aw", "inv", "(a-b)<<n", "(a-b)>>n", "a<<n-b<<n", "a>>0-b"]
-SYMBOL_SHAPES = ["k*d", "k*(x-y)", "(x-b)*k", "chain", "aw"]
+SYMBOL_SHAPES = ["k*d", "k*(x-y)", "(x-b)*k", "chain", "a*ks-b*ks", "ks*a-ks*b", "ks*(a-b)", "chain-d", "aw"]
 SOLVED_SHAPES = DIRECT_SHAPES + SYMBOL_SHAPES
 
 
@@ -329,25 +345,23 @@ def place_symbols(rng, p, e, linkfile, ordered=False):
             fidx = linkfile if not p.multi or rng.random() < 0.6 else rng.randrange(len(p.files))
             insert_at(rng, p.files[fidx], ("assign", name, inner))
         return
-    fidx, lo = (0, 1)
+    fidx, lo = (0, 0)
     for name, inner in syms:
         if p.multi and rng.random() < 0.3 and fidx + 1 < len(p.files):
             fidx, lo = fidx + 1, 0
-        pos = rng.randint(lo, len(p.files[fidx]))
+        pos = rng.randint(min(lo, len(p.files[fidx])), len(p.files[fidx]))
         p.files[fidx].insert(pos, ("assign", name, inner))
         lo = pos + 1
 
 
 def gen_solved(rng, mode="direct", via_dot=False, boundary=None):
-    """mode direct : labels spelled directly, directive anywhere                        (expected to hold)
-       mode symR   : through symbols; one file, the directive is its first statement, one statement precedes
-                     the first label, nested symbols are defined in dependency order    (expected to hold)
-       mode probe  : through symbols, everything anywhere                               (known oddity: see explore)"""
-    nfiles = 1 if mode == "symR" else rng.choice([1, 1, 2, 3])
+    """mode direct : labels spelled directly
+       mode sym    : through intermediate symbols (addresses, differences, factors, chains of them, exported across
+                     files), every definition anywhere
+       in both modes the directive is anywhere in any file"""
+    nfiles = rng.choice([1, 1, 2, 3])
     nl = rng.randint(2, 6)
     p = layout(rng, nfiles, nl, rng.randint(2, 8))
-    if mode == "symR":
-        p.files[0].insert(0, ("bytes",) + rng.choice(BYTES_POOL))
     offs, data = p.offsets()
     e = None
     shapes = []
@@ -355,7 +369,7 @@ def gen_solved(rng, mode="direct", via_dot=False, boundary=None):
     for n in range(rng.choice([1, 1, 2, 3])):
         i, j = rng.randrange(nl), rng.randrange(nl)
         k = rng.choice([1, 1, 2, 3, -1, -2, 5, 0])
-        t, shape = diff_term(rng, k, i, j, pool if (n or mode == "direct") else SYMBOL_SHAPES[:4], allow_sym=(mode != "direct"))
+        t, shape = diff_term(rng, k, i, j, pool if (n or mode == "direct") else SYMBOL_SHAPES[:8], allow_sym=(mode != "direct"))
         shapes.append(shape)
         e = t if e is None else ((rng.choice("+-"), e, t))
     base0 = rng.choice([0o1000, 0o1000, 0, 0o100, 0o40000, 0o2000, 0o157776])
@@ -376,16 +390,15 @@ def gen_solved(rng, mode="direct", via_dot=False, boundary=None):
     elif wrap < 0.24 and mode != "direct":
         e = ("sym", fresh("b"), e)
         shapes.append("whole-sym")
-    if via_dot or mode == "symR":
-        # a leading `. =` / `.link`: the first statement of the first file
+    if via_dot:
+        # a leading `. =`: the first statement of the first file
         fidx = 0
-        p.files[0].insert(0, ("dot" if via_dot else "link", e))
-        if via_dot:
-            shapes.append("leading-dot")
+        p.files[0].insert(0, ("dot", e))
+        shapes.append("leading-dot")
     else:
         fidx = rng.randrange(nfiles)
         insert_at(rng, p.files[fidx], ("link", e))
-    place_symbols(rng, p, e, fidx, ordered=(mode == "symR"))
+    place_symbols(rng, p, e, fidx, ordered=(rng.random() < 0.25))
     exp = "ESolved %s %s %s" % (C.zlist(offs), coq(e), C.zlist(data))
     return p, exp, ("solved-" + mode, tuple(sorted(set(shapes))), nfiles), {"expected_value": v}
 
@@ -397,13 +410,18 @@ def gen_self(rng):
     offs, data = p.offsets()
     a, b, c = (("lab", rng.randrange(nl)) for _ in range(3))
     shape = rng.choice(["a", "a+K", "2*a", "a*2", "a/2", "a&7", "a>>1", "a<<1", "a*b", "-a", "~a", "(a-b)*c", "a-b+c", "sym a", "sym a/2",
-                        "K+a-b+c", "a%2", "a_1", "3*a-b-b"])
+                        "K+a-b+c", "a%2", "a_1", "3*a-b-b", "chain a", "ks*a", "a*ks-b", "sym(a-b)+c", "sym whole"])
     kk = K(rng.choice([0o1000, 2, 0o100]))
     e = {"a": a, "a+K": ("+", a, kk), "2*a": ("*", K(2), a), "a*2": ("*", a, K(2)), "a/2": ("aw", "/", a, K(2)),
          "a&7": ("aw", "&", a, K(7)), "a>>1": (">>", a, K(1)), "a<<1": ("<<", a, K(1)), "a*b": ("*", a, b), "-a": ("neg", a),
          "~a": ("inv", a), "(a-b)*c": ("*", ("-", a, b), c), "a-b+c": ("+", ("-", a, b), c), "sym a": ("sym", fresh("x"), a),
          "sym a/2": ("aw", "/", ("sym", fresh("x"), a), K(2)), "K+a-b+c": ("+", ("-", ("+", kk, a), b), c),
-         "a%2": ("aw", "%", a, K(2)), "a_1": ("aw", "_", a, K(1)), "3*a-b-b": ("-", ("-", ("*", K(3), a), b), b)}[shape]
+         "a%2": ("aw", "%", a, K(2)), "a_1": ("aw", "_", a, K(1)), "3*a-b-b": ("-", ("-", ("*", K(3), a), b), b),
+         "chain a": ("sym", fresh("z"), ("sym", fresh("y"), ("+", ("sym", fresh("x"), a), K(2)))),
+         "ks*a": ("*", ("sym", fresh("k"), ("sym", fresh("j"), K(2))), a),
+         "a*ks-b": ("-", ("*", a, ("sym", fresh("k"), K(2))), b),
+         "sym(a-b)+c": ("+", ("sym", fresh("d"), ("-", a, b)), c),
+         "sym whole": ("sym", fresh("b"), ("+", kk, ("-", ("*", K(2), a), b)))}[shape]
     # the oracle needs a value that really changes with the base
     vals = set()
     for base in (0, 2, 512, 4094):
@@ -524,11 +542,8 @@ def build_cases(rng, tier, only_oracle=False, scale=1):
 
     for i in range((200 if q else 2000) * scale):
         add(gen_solved(rng, "direct", via_dot=(i % 7 == 0)))
-    for i in range((100 if q else 1000) * scale):
-        add(gen_solved(rng, "symR", via_dot=(i % 9 == 0)))
-    if not only_oracle:
-        for i in range((60 if q else 600) * scale):
-            add(gen_solved(rng, "probe"))
+    for i in range((200 if q else 2000) * scale):
+        add(gen_solved(rng, "sym", via_dot=(i % 9 == 0)))
     for bnd in (0, 1, -1, 65535, 65536, -65535, -65536, 65534, 70000, -70000):
         for _ in range(2 if q else 8):
             add(gen_solved(rng, "direct", boundary=bnd))
@@ -564,24 +579,7 @@ def run_cases(rep, cases, tag):
     codes = C.run_case_files(ID + tag, "Base.Res Spec.LinkRef Model.LinkBase Run.C12Run", "Open Scope string_scope.\nOpen Scope Z_scope.",
                              C.shard(terms, 120), judge_expr="map judge cases")
     flat = [c for sh in codes for c in sh]
-    probe = rep.extra.setdefault("symbol_indirection_probe", {
-        "what": "link expressions spelled through intermediate symbols with the directive, the labels and the definitions anywhere; a solvable "
-                "base that is rejected as recursive-definition is a known oddity of the code (reported, not counted as a violation); an accepted "
-                "base that differs from the expression's value would be a violation",
-        "generated": 0, "accepted_with_the_right_base": 0, "rejected_although_solvable": 0, "examples_rejected": []})
     for (p, exp, key, extra), o, code in zip(cases, outs, flat):
-        if key[0] == "solved-probe":
-            probe["generated"] += 1
-            errs = {d[1] for d in o["diags"] if d[0] != "warning"}
-            if o["outcome"] == "failed" and errs == {"recursive-definition"} and -65536 < extra["expected_value"] < 65536:
-                probe["rejected_although_solvable"] += 1
-                if len(probe["examples_rejected"]) < 3:
-                    probe["examples_rejected"].append(p.source())
-                rep.add_eval()
-                rep.count("solved-probe:rejected")
-                continue
-            if o["outcome"] == "ok" and not (code & 3):
-                probe["accepted_with_the_right_base"] += 1
         rep.add_eval()
         rep.count("%s:%s" % (key[0], o["outcome"]))
         rep.nontrivial(key + (len(p.flat()),))
